@@ -1360,11 +1360,16 @@ func (schema *Schema) visitXOFOperations(settings *schemaValidationSettings, val
 			}
 
 			// make a deep copy to protect origin value from being injected default value that defined in mismatched oneOf schema
-			if settings.asreq || settings.asrep {
+			private := settings.asreq || settings.asrep
+			if private {
 				tempValue = deepcopy.Copy(value)
+				settings.trial++
 			}
-
-			if err := v.visitJSON(settings, tempValue); err != nil {
+			err := v.visitJSON(settings, tempValue)
+			if private {
+				settings.trial--
+			}
+			if err != nil {
 				validationErrors = append(validationErrors, err)
 				continue
 			}
@@ -1413,10 +1418,16 @@ func (schema *Schema) visitXOFOperations(settings *schemaValidationSettings, val
 				return foundUnresolvedRef(item.Ref), false
 			}
 			// make a deep copy to protect origin value from being injected default value that defined in mismatched anyOf schema
-			if settings.asreq || settings.asrep {
+			private := settings.asreq || settings.asrep
+			if private {
 				tempValue = deepcopy.Copy(value)
+				settings.trial++
 			}
-			if err := v.visitJSON(settings, tempValue); err == nil {
+			err := v.visitJSON(settings, tempValue)
+			if private {
+				settings.trial--
+			}
+			if err == nil {
 				ok = true
 				matchedAnyOfIdx = idx
 				break
@@ -1933,7 +1944,10 @@ func (schema *Schema) visitJSONObject(settings *schemaValidationSettings, value 
 			if _, present := value[propName]; !present && settings.defaultsSet != nil {
 				if dflt := propSchema.Value.Default; dflt != nil && !reqRO && !repWO {
 					value[propName] = deepcopy.Copy(dflt) // never hand the document's own default to the request
-					settings.onceSettingDefaults.Do(settings.defaultsSet)
+					// a default written into a candidate's private copy is not a default of the value
+					if settings.trial == 0 {
+						settings.onceSettingDefaults.Do(settings.defaultsSet)
+					}
 				}
 			}
 
